@@ -225,7 +225,9 @@ func (hdr *TxHeader) ReadFrom(b []byte) error {
 		}
 	}
 
-	if hdr.NEntries < 1 {
+	// a transaction without entries is only committed when it carries metadata of its own
+	// (e.g. the truncation marker), the same condition is applied when it is received
+	if hdr.NEntries < 0 || (hdr.NEntries == 0 && (hdr.Metadata.IsEmpty() || hdr.Metadata.HasExtraOnly())) {
 		return fmt.Errorf("%w: invalid number of entries", ErrIllegalArguments)
 	}
 
